@@ -124,6 +124,8 @@ def judge(case, obs, ftext):
             outcome = None
             if not rejected and script:
                 outcome = script.pop(0)
+                if outcome is not None and outcome[0] == "a":
+                    outcome = None
             for pid, msg in wire.judge_call(case, call, outcome, ",".join([ret, emitted, handled]), ftext):
                 bad.append("%s (macro %s, %s, %d tags)" % (msg, kind, ty, n))
         else:
